@@ -179,7 +179,24 @@ ErrThm(c, x, d) ==
         IF Reached(c, d) THEN ERR \in o /\ (Det(Outcomes(Plug(c, Lit(Null)), d)) => o = ErrS)
         ELSE o = Outcomes(Plug(c, Lit(Null)), d))
 
+(* C08: on arrays the slice selects exactly the positions of the declarative definition, which are in range,
+   evenly spaced, agree with the code's formulation and are invariant under saturation; step 0 is an error on
+   arrays only; a non-array yields null; a huge index selects nothing *)
+SliceThm(e, d) ==
+  LET o == Outcomes(e, d) IN
+  /\ WellFormed(o)
+  /\ (e[1] = "Projection" /\ e[2][1] = "IndexExpression" /\ e[2][3][1] = "Slice" =>
+        LET parts == e[2][3][2] IN
+        \A l \in OkVals(Outcomes(e[2][2], d)) :
+          IF l[1] # "arr" THEN o = OkS(Null)
+          ELSE LET n == Len(l[2]) IN
+               IF HasP(parts[3]) /\ PV(parts[3], n) = 0 THEN o = ErrS
+               ELSE /\ InRange(n, parts) /\ Monotone(n, parts) /\ CodeAgrees(n, parts) /\ Saturation(n, parts)
+                    /\ (e[3] = Identity => o = OkS(Arr(DropNull([k \in 1..Len(SlicePositions(n, parts)) |-> l[2][SlicePositions(n, parts)[k] + 1]])))))
+  /\ (e[1] = "IndexExpression" /\ e[3][1] = "Index" /\ Len(e[3]) = 3 => o = OkS(Null))
+
 Thm(e, d) == CASE Family = "C01" -> CoreThm(e, d)
+               [] Family \in {"C08", "C08i"} -> SliceThm(e, d)
                [] Family = "C02" -> ProjThm(e, d)
                [] Family \in {"C07", "C07d"} -> OpThm(e, d)
                [] Family \in {"C09", "C09n", "C10", "C10d", "C10k"} -> FnThm(e, d)
